@@ -2,6 +2,7 @@ use crate::fw::CheckDef;
 pub mod c03;
 pub mod core;
 pub mod lexchk;
+pub mod textchk;
 pub mod valsem;
 pub mod c18;
 pub mod c19;
@@ -15,6 +16,7 @@ pub fn registry() -> Vec<CheckDef> {
     v.extend(core::defs());
     v.extend(valsem::defs());
     v.extend(lexchk::defs());
+    v.extend(textchk::defs());
     v.push(c18::def());
     v.push(c19::def());
     v.push(c21::def());
